@@ -91,10 +91,12 @@ class PathState:
         self.ncall = 0
         self.eqs = {}        # symbol -> constant, from path conditions
         self.lfmem = {}      # (obj, off, nbytes) -> Lf stored there
+        self.divs = {}       # (repr(x), c) -> (quotient symbol, remainder symbol, x, c)
 
     def clone(self):
         p = PathState()
         p.lfmem = dict(self.lfmem)
+        p.divs = dict(self.divs)
         p.env = dict(self.env)
         p.mem = dict(self.mem)
         p.events = list(self.events)
@@ -106,7 +108,7 @@ class PathState:
 
 
 class Exec:
-    def __init__(self, f, call_handler, havoc=None, word_args=()):
+    def __init__(self, f, call_handler, havoc=None, word_args=(), unroll=False, arg_consts=None):
         """call_handler(ex, path, inst, callee, argvalues) -> result value or None
         havoc(ex, path, header) is called when a fresh iteration starts at a loop header"""
         self.f = f
@@ -117,6 +119,8 @@ class Exec:
         self.head_entry = {}
         self.nsym = 0
         self.word_args = set(word_args)
+        self.unroll = unroll
+        self.arg_consts = dict(arg_consts or {})
 
     # -- value helpers ---------------------------------------------------------
     def val(self, p, v):
@@ -126,6 +130,8 @@ class Exec:
         if k == "n":
             return Lf()
         if k == "a":
+            if v[1] in self.arg_consts:
+                return Lf.c(self.arg_consts[v[1]])
             if v[1] in self.word_args:
                 ty = self.f.params[v[1]]["ty"]
                 return gf2.sym_word(("argw", v[1]), int(ty[1:]))
@@ -249,7 +255,12 @@ class Exec:
         first = True
         while True:
             # loop header handling
-            if b in self.heads and pred != "fresh":
+            if self.unroll:
+                # constant-trip loops under call-site constants: blocks are simply followed; bound the work
+                p.ncall += 0
+                if len(p.blocks) > 4000:
+                    raise Broken("irx(unroll): path too long in %s (loop bound not constant?)" % f.name)
+            if b in self.heads and pred != "fresh" and not self.unroll:
                 L = self.heads[b]
                 if pred in L["blocks"]:
                     # back edge: bind phi values for reporting, then stop
@@ -288,6 +299,8 @@ class Exec:
                             ty = I.get("ty") or ""
                             if ty.endswith("*"):
                                 n.env[("i", I.id)] = Lf.s(("hdp", I.id))
+                            elif is_word(q.env.get(("init", I.id))) and I.bits:
+                                n.env[("i", I.id)] = gf2.sym_word(("hdw", I.id), I.bits)
                             else:
                                 n.env[("i", I.id)] = Lf.s(("hd", I.id))
                         if self.havoc:
@@ -333,6 +346,33 @@ class Exec:
                     work.append((succ[0], b, p2, "fork"))
                 p = alts[0]
                 pred, b = b, succ[0]
+                continue
+            if t.op == "switch":
+                v = self.val(p, t.ops[0])
+                if is_word(v):
+                    k = gf2.is_const(v)
+                    if k is None:
+                        raise Broken("irx: switch on data in %s" % f.name)
+                    v = Lf.c(k)
+                sv = self.subst(p, v)
+                cases = [(int(cv), dst) for cv, dst in t.get("cases")]
+                k = sv.const()
+                if k is not None:
+                    dst = t.get("default")
+                    for cv, d in cases:
+                        if cv == (k & ((1 << 64) - 1)) or cv == k:
+                            dst = d
+                    pred, b = b, dst
+                    continue
+                # fork: one path per case (value pinned), one for the default (all cases excluded)
+                zero = Lf()
+                for cv, d in cases:
+                    q = p.clone()
+                    self._assume(q, ("icmp", "eq", sv, Lf.c(cv)), True)
+                    work.append((d, b, q, "fork"))
+                for cv, d in cases:
+                    self._assume(p, ("icmp", "eq", sv, Lf.c(cv)), False)
+                pred, b = b, t.get("default")
                 continue
             if t.op == "unreachable":
                 self._finish(p, ("unreachable", None))
@@ -442,6 +482,31 @@ class Exec:
             p.events.append(("cond-data", pred, truth))
             p.conds.append(("data", None, truth))
 
+    def _upper(self, p, lf):
+        """upper bound of a linear form from the path conditions (same form up to a constant), or None"""
+        key = Lf(lf)
+        k0 = key.pop(1, 0)
+        if not key:
+            return k0
+        best = None
+        for (pr, dd, truth) in p.conds:
+            if dd is None:
+                continue
+            kk = Lf(dd)
+            c0 = kk.pop(1, 0)
+            q = pr if truth else {"eq": "ne", "ne": "eq", "ult": "uge", "uge": "ult", "ugt": "ule", "ule": "ugt"}.get(pr)
+            if kk == key:
+                # key + c0 q 0
+                ub = {"ult": -c0 - 1, "ule": -c0, "eq": -c0}.get(q)
+            elif kk == Lf({s_: -c for s_, c in key.items()}):
+                # -key + c0 q 0  ->  key q' c0
+                ub = {"ugt": c0 - 1, "uge": c0, "eq": c0}.get(q)
+            else:
+                continue
+            if ub is not None:
+                best = ub if best is None else min(best, ub)
+        return None if best is None else best + k0
+
     def _derive_eq(self, p, d):
         syms = [s for s in d if s != 1]
         if len(syms) != 1 or d[syms[0]] != 1:
@@ -484,8 +549,17 @@ class Exec:
         if op == "alloca":
             p.env[k] = Lf.s(("alloca", I.id))
             return
-        if op in ("bitcast", "freeze"):
+        if op in ("bitcast", "freeze", "inttoptr"):
             p.env[k] = self.val(p, o[0])
+            return
+        if op == "ptrtoint":
+            v = self.val(p, o[0])
+            ob, of = (v.base() if not is_word(v) else (None, None))
+            if ob is not None and of.const() is not None:
+                # numeric address = 16 * (opaque) + offset: the object itself is assumed 16-byte aligned in this evaluation
+                p.env[k] = Lf({("addr", ob): 16, 1: of.const()})
+            else:
+                p.env[k] = [gf2.TOP] * 64
             return
         if op == "getelementptr":
             base = self.val(p, o[0])
@@ -546,6 +620,13 @@ class Exec:
         if op in ("xor", "and", "or"):
             a, b = self.val(p, o[0]), self.val(p, o[1])
             w = I.bits
+            if op == "and" and not is_word(a) and not is_word(b):
+                for x, y in ((a, b), (b, a)):
+                    m = y.const()
+                    if m is not None and m >= 0 and (m & (m + 1)) == 0 and x.const() is None:
+                        if all(c % (m + 1) == 0 for s_, c in x.items() if s_ != 1):
+                            p.env[k] = Lf.c(x.get(1, 0) & m)
+                            return
             a, b = self.word(a, w, p), self.word(b, w, p)
             p.env[k] = {"xor": gf2.wxor, "and": gf2.wand, "or": gf2.wor}[op](a, b)
             return
@@ -567,8 +648,35 @@ class Exec:
             w = I.bits
             if is_word(a):
                 p.env[k] = gf2.wzext(a, w) if op == "zext" else (gf2.wsext(a, w) if op == "sext" else gf2.wtrunc(a, w))
+            elif op == "trunc" and self.subst(p, a).const() is None and w < (I.get("src_bits") or 64):
+                # narrowing of a symbolic length / counter: exact only if the path bounds it below 2^w
+                ub = self._upper(p, self.subst(p, a))
+                if ub is not None and ub < (1 << w):
+                    p.env[k] = a
+                else:
+                    p.events.append(("narrowing", I.id, w, repr(self.subst(p, a))))
+                    p.env[k] = Lf.s(("trunc", I.id))
             else:
                 p.env[k] = a
+            return
+        if op in ("udiv", "urem"):
+            a, b = self.val(p, o[0]), self.val(p, o[1])
+            if not is_word(a) and not is_word(b):
+                sa, sb = self.subst(p, a), self.subst(p, b)
+                ca, cb = sa.const(), sb.const()
+                if ca is not None and cb:
+                    p.env[k] = Lf.c(ca // cb if op == "udiv" else ca % cb)
+                    return
+                if cb and cb > 0:
+                    # x = cb * Q + R with fresh symbols Q >= 0 and 0 <= R < cb (recorded on the path)
+                    key = (repr(sa), cb)
+                    if key not in p.divs:
+                        p.divs[key] = (("quo", I.id), ("rem", I.id), sa, cb)
+                        p.conds.append(("ult", Lf({("rem", I.id): 1, 1: -cb}), True))
+                    qs, rs, _, _ = p.divs[key]
+                    p.env[k] = Lf.s(qs) if op == "udiv" else Lf.s(rs)
+                    return
+            p.env[k] = [gf2.TOP] * (I.bits or 64)
             return
         if op in ("add", "sub"):
             a, b = self.val(p, o[0]), self.val(p, o[1])
